@@ -382,6 +382,18 @@ func allocSeeds(tier string) []*tseed {
 	s := []*tseed{
 		bareSeed(tbin.ListS(tbin.Sc(tbin.I32)), 1),
 		bareSeed(tbin.MapS(tbin.Sc(tbin.STRING), tbin.Sc(tbin.I32)), 1),
+		// every combination of fixed-size / variable-size key and value (a bound computed from the element sizes
+		// must not vanish for variable-size elements), one-byte elements, struct elements
+		bareSeed(tbin.MapS(tbin.Sc(tbin.STRING), tbin.Sc(tbin.STRING)), 1),
+		bareSeed(tbin.MapS(tbin.Sc(tbin.STRING), tbin.Sc(tbin.BOOL)), 1),
+		bareSeed(tbin.MapS(tbin.Sc(tbin.BYTE), tbin.Sc(tbin.STRING)), 1),
+		bareSeed(tbin.MapS(tbin.Sc(tbin.I64), tbin.Sc(tbin.DOUBLE)), 1),
+		bareSeed(tbin.MapS(tbin.Sc(tbin.I32), tbin.StructS(tbin.SF(1, tbin.Sc(tbin.I32)))), 1),
+		bareSeed(tbin.MapS(tbin.Sc(tbin.STRING), tbin.StructS(tbin.SF(1, tbin.Sc(tbin.I32)))), 1),
+		bareSeed(tbin.ListS(tbin.Sc(tbin.STRING)), 1),
+		bareSeed(tbin.ListS(tbin.Sc(tbin.BOOL)), 1),
+		bareSeed(tbin.ListS(tbin.StructS(tbin.SF(1, tbin.Sc(tbin.I32)))), 1),
+		bareSeed(tbin.SetS(tbin.Sc(tbin.I64)), 1),
 	}
 	if tier == "thorough" {
 		s = append(s, wrapSeed(tbin.ListS(tbin.ListS(tbin.Sc(tbin.STRING))), 1))
